@@ -247,7 +247,7 @@ def gen_heap(rng, nops):
         x = rng.random()
         if x < .30 or all(a is None for a in regs):
             dst = rng.randrange(nregs) if rng.random() < .95 else nregs
-            ps = [walk() for _ in range(rng.choice([0, 0, 1, 2, 3]) if any(a is not None for a in regs) else 0)]
+            ps = [walk() for _ in range(rng.choice([0, 0, 1, 2, 3, 4, 4]) if any(a is not None for a in regs) else 0)]
             toks.append('A%d,%d%s' % (dst, rng.randrange(-50, 1000), ''.join(',' + p for p, _ in ps)))
             if all(a is not None for _, a in ps):
                 objs[nxt[0]] = [a for _, a in ps]
